@@ -140,6 +140,32 @@ def class_zoo(rng, S):
     return out
 
 
+def corner_recipes(rng, S):
+    """Inputs that need a specific shape: conjugates that are flagged linear (so that
+    `s * f* * (1/s)` / `f* * (1/s)` take the LeftScalarMult branch of `Functional.__mul__`),
+    QuadraticForm with vector inside scalings/translations, negative argument scalings."""
+    n = S.size
+    t = fc.rvec(rng, n, -4, 4, 2, nonzero=True)
+    b = fc.rvec(rng, n, -4, 4, 2)
+    out = [
+        ['lscal', 2.0, ['indzero', 0.0]],
+        ['rscal', 2.0, ['indzero', 0.0]],
+        ['rscal', -2.0, ['trans', t, ['indzero', 0.0]]],
+        ['lscal', 4.0, ['trans', t, ['indzero', 0.0]]],
+        ['rscal', 0.5, ['lscal', 2.0, ['trans', t, ['indzero', 0.0]]]],
+        ['rscal', 2.0, ['indzero', 1.0]],
+        ['lscal', 2.0, ['ssum', 1.0, ['trans', t, ['indzero', 0.0]]]],
+        ['rscal', -0.5, ['quadscale', 2.0, b, 1.0]],
+        ['trans', t, ['lscal', 0.5, ['quadmul', [rng.choice([1.0, 2.0, 0.5]) for _ in range(n)], b, -1.0]]],
+        ['qp', 0.0, t, 2.0, ['quadscale', 0.5, b, 0.0]],
+        ['breg', t, b, ['quadscale', 2.0, None, 0.0]],
+    ]
+    if S.kind in ('rn', 'rn-const'):
+        q = gen_leaf_quadmat(rng, S)
+        out += [['rscal', 2.0, q], ['lscal', 0.25, ['trans', t, q]]]
+    return out
+
+
 def gen_leaf_quadmat(rng, S):
     while True:
         r = gen_leaf(rng, S, True)
@@ -357,6 +383,10 @@ def run(ctx, deep=False):
     for S in fc.all_spaces():
         for r in class_zoo(rng, S):
             check_expr(ctx, r, S, 'general', lines, pend, n_pts=2 if quick else 4)
+        for r in corner_recipes(rng, S):
+            ctx.hit('corner/' + '/'.join(fc.recipe_classes(r)[:3]))
+            check_expr(ctx, r, S, 'general' if 'quadmat' in fc.recipe_classes(r) else 'exact',
+                       lines, pend, n_pts=2)
         for i in range(n_expr):
             exact = rng.random() < 0.6
             r = gen_recipe(rng, S, rng.randint(0, 3 if quick else 4), exact)
